@@ -88,7 +88,7 @@ func (g *Gen) KnownPrograms(startPID, per int) []*ps.Program {
 		// notask: NEW finding — a flow without tasks is accepted.
 		{
 			p := &ps.Program{Kind: "flow", Mode: "base", Wrap: i%2 == 0}
-			t := g.R.Intn(ps.NumTypes)
+			t := ps.FlowTypes[g.R.Intn(len(ps.FlowTypes))]
 			p.Params, p.Results = []int{t}, []int{t}
 			g.order(p)
 			add(p, "notask", "")
